@@ -64,7 +64,11 @@ import (
 
 func init() { RegisterSub("C04", "delta", RunC04Delta) }
 
-const c04dWorkers = 8 // fixed, so that the case -> worker (= buffer history) assignment replays from the seed
+// FIXED_LEN_BYTE_ARRAY sizes: around the 8/16/32/64-byte kernel widths of byte_array_amd64.go (the 128-bit kernel is
+// for size == 16 only, the 256-bit one for sizes below 16 and 17..32, the scalar loop above 32) and common digests
+var c04dFLBASizes = []int{1, 2, 3, 4, 7, 8, 9, 12, 15, 16, 17, 20, 24, 31, 32, 33, 48, 63, 64, 65}
+
+const c04dWorkers = 16 // fixed, so that the case -> worker (= buffer history) assignment replays from the seed
 
 // one DELTA_BINARY_PACKED stream of the reference encoder as a ConfStream description (Lean op
 // delta.conf32/64), with the bytes and the values it must render to
@@ -652,6 +656,7 @@ type c04dWorker struct {
 	pend  []func(string)
 	later []func() // follow-up requests queued by answers
 	size  int
+	flba  int // > 0: godec is looking at DecodeFixedLenByteArray of that value size
 
 	bp delta.BinaryPackedEncoding
 	lb delta.LengthByteArrayEncoding
@@ -898,7 +903,18 @@ func (w *c04dWorker) godec(kind, rawHex, goRes, canon string, malformed bool) {
 		}
 		ctx.Fail("L2", "delta-"+kind+"-decoder-mirror", "the Go decoder and the Lean mirror of the portable decoder disagree ("+ctx.Variant+" build)", detail)
 	})
-	if kind == "dba" && !malformed && ctx.Variant == "asm" && strings.HasPrefix(goRes, "ok ") {
+	if kind == "dba" && w.flba > 0 && !malformed && ctx.Variant == "asm" && strings.HasPrefix(goRes, "ok ") {
+		// FIXED_LEN_BYTE_ARRAY: the mirror of the amd64 wrapper of decodeFixedLenByteArray (previous value rebuilt as
+		// dst[i-size:], kernels by contract; theorem flba_amd64_wrapper_eq_portable)
+		w.ask(fmt.Sprintf("dba.godecflbaamd64 %d %s", w.flba, rawHex), func(ans string) {
+			if ans != goRes {
+				ctx.Fail("L2", "delta-flba-amd64-wrapper-mirror", "DecodeFixedLenByteArray on the assembly build and the Lean mirror of the amd64 Go wrapper (AVX2 kernels by contract) disagree",
+					map[string]any{"case": c04dClip(canon), "impl": c04dClip(goRes), "model": c04dClip(ans)})
+			} else {
+				ctx.Hist("decoder-mirror-flba-amd64-wrapper", "equal")
+			}
+		})
+	} else if kind == "dba" && !malformed && ctx.Variant == "asm" && strings.HasPrefix(goRes, "ok ") {
 		// the mirror of what the assembly build really runs: the amd64 Go wrapper with the AVX2 kernels
 		// replaced by their contract (theorem dba_amd64_wrapper_eq_portable)
 		w.ask("dba.godecamd64 "+rawHex, func(ans string) {
@@ -1103,7 +1119,16 @@ func (w *c04dWorker) runFLBA(c c04dCase) {
 				map[string]any{"case": canon, "bytes": refHex, "spec": c04dClip(ans)})
 		}
 	})
-	w.godec("dba", refHex, "ok "+c04dVals(vals), canon, false)
+	goVals := vals // what Go's decoder returned, where it has the right length (L1 above otherwise)
+	if derr == nil && len(w.decB) == len(c.raw) {
+		goVals = make([][]byte, n)
+		for i := range goVals {
+			goVals[i] = w.decB[i*c.size : (i+1)*c.size]
+		}
+	}
+	w.flba = c.size
+	w.godec("dba", refHex, "ok "+c04dVals(goVals), canon, false)
+	w.flba = 0
 	w.ask(fmt.Sprintf("dba.encflba %d %s", c.size, core.Hex(c.raw)), func(ans string) {
 		if ans != "ok "+refHex {
 			ctx.Fail("L2", "dba-flba-mirror-bytes", "Go encoder bytes differ from the Lean mirror ("+ctx.Variant+" build)",
@@ -1386,7 +1411,9 @@ func (w *c04dWorker) runConformant(c c04dCase) {
 	case "confdlba":
 		w.godec("dlba", rawHex, c04dGoDecodeDLBARaw(c04dBeyond(c.raw, 0xFF)), canon, false)
 	case "confflba":
+		w.flba = c.size
 		w.godec("dba", rawHex, goRes, canon, false)
+		w.flba = 0
 	default:
 		w.godec(strings.TrimPrefix(c.kind, "conf"), rawHex, goRes, canon, false)
 	}
@@ -1721,7 +1748,7 @@ func c04dCorners(ctx *core.Ctx) {
 }
 
 func RunC04Delta(ctx *core.Ctx) {
-	ctx.SetRule("delta: value sequences (int32/int64: boundary lengths 0,1,2,31..34,63..66,127..131,255..259,1000s x 12 value patterns incl. overflowing deltas; byte arrays: 9 patterns incl. empty/long/0xFF/word-boundary shared prefixes; FLBA sizes 1..33) encoded by the real encoder into nil and dirty/reused dst, decoded by Go and by the Lean spec decoder, compared byte-exact with the Lean mirror; plus spec-conformant streams of a reference encoder written from Encodings.md (18 block/miniblock geometries up to the 65536 limit, non-minimal widths, any frame of reference) decoded by Go and by the spec decoder, unneeded miniblocks with stale width bytes, bytes following the stream (decodeInt32/64 must leave exactly those unread), FIXED_LEN_BYTE_ARRAY through foreign DELTA_BYTE_ARRAY streams, every stream also rendered by the Lean family of conformant streams from the same choices; plus malformed streams (random, free-form, truncated, mutated, extended; observations only). Distinct by canonical input text; non-trivial = at least 2 values (ints), at least 2 values with a non-empty one (byte arrays), more than 4 bytes (malformed)")
+	ctx.SetRule("delta: value sequences (int32/int64: boundary lengths 0,1,2,31..34,63..66,127..131,255..259,1000s x 12 value patterns incl. overflowing deltas; byte arrays: 9 patterns incl. empty/long/0xFF/word-boundary shared prefixes; FLBA sizes 1..65 incl. 15,16,17,20,32,33,64) encoded by the real encoder into nil and dirty/reused dst, decoded by Go and by the Lean spec decoder, compared byte-exact with the Lean mirror; plus spec-conformant streams of a reference encoder written from Encodings.md (18 block/miniblock geometries up to the 65536 limit, non-minimal widths, any frame of reference) decoded by Go and by the spec decoder, unneeded miniblocks with stale width bytes, bytes following the stream (decodeInt32/64 must leave exactly those unread), FIXED_LEN_BYTE_ARRAY through foreign DELTA_BYTE_ARRAY streams, every stream also rendered by the Lean family of conformant streams from the same choices; plus malformed streams (random, free-form, truncated, mutated, extended; observations only). Distinct by canonical input text; non-trivial = at least 2 values (ints), at least 2 values with a non-empty one (byte arrays), more than 4 bytes (malformed)")
 	var cases []c04dCase
 	// corpus / replay first
 	files := ctx.CorpusFiles()
@@ -1768,7 +1795,7 @@ func RunC04Delta(ctx *core.Ctx) {
 				}
 			}
 		}
-		nInt := ctx.Scale(3500, 28000) * mul
+		nInt := ctx.Scale(3000, 11000) * mul
 		for i := 0; i < nInt; i++ {
 			for _, bits := range []string{"i32", "i64"} {
 				b := 32
@@ -1779,7 +1806,7 @@ func RunC04Delta(ctx *core.Ctx) {
 				cases = append(cases, c04dCase{kind: bits, ints: c04dInts(r, b, c04dLen(r), pat), pat: pat, seed: r.Int63()})
 			}
 		}
-		nBytes := ctx.Scale(2500, 20000) * mul
+		nBytes := ctx.Scale(2000, 7000) * mul
 		for i := 0; i < nBytes; i++ {
 			for _, kind := range []string{"dlba", "dba"} {
 				pat := c04dBytePats[r.Intn(len(c04dBytePats))]
@@ -1790,9 +1817,9 @@ func RunC04Delta(ctx *core.Ctx) {
 				cases = append(cases, c04dCase{kind: kind, vals: c04dBytes(r, n, pat), pat: pat, seed: r.Int63()})
 			}
 		}
-		nF := ctx.Scale(1500, 12000) * mul
+		nF := ctx.Scale(1500, 5000) * mul
 		for i := 0; i < nF; i++ {
-			size := []int{1, 2, 3, 7, 8, 9, 12, 15, 16, 17, 31, 32, 33}[r.Intn(13)]
+			size := c04dFLBASizes[r.Intn(len(c04dFLBASizes))]
 			pat := c04dBytePats[r.Intn(len(c04dBytePats))]
 			n := c04dLen(r) % 300
 			var raw []byte
@@ -1803,7 +1830,7 @@ func RunC04Delta(ctx *core.Ctx) {
 			cases = append(cases, c04dCase{kind: "flba", size: size, raw: raw, pat: pat, seed: r.Int63()})
 		}
 		// conformant streams of foreign origin (reference encoder)
-		nConf := ctx.Scale(2500, 20000) * mul
+		nConf := ctx.Scale(2500, 9000) * mul
 		for i := 0; i < nConf; i++ {
 			g := c04dGeometries[i%len(c04dGeometries)]
 			for _, kind := range []string{"conf32", "conf64"} {
@@ -1838,7 +1865,7 @@ func RunC04Delta(ctx *core.Ctx) {
 				raw, parts = c04dRefDBA(r, vs)
 				cases = append(cases, c04dCase{kind: "confdba", vals: vs, raw: raw, conf: parts, pat: pat, seed: r.Int63()})
 				// FIXED_LEN_BYTE_ARRAY values through a foreign DELTA_BYTE_ARRAY stream (DecodeFixedLenByteArray)
-				size := []int{1, 2, 3, 7, 8, 9, 12, 15, 16, 17, 31, 32, 33}[r.Intn(13)]
+				size := c04dFLBASizes[r.Intn(len(c04dFLBASizes))]
 				fvs := make([][]byte, 0, len(vs))
 				for _, v := range vs[:min(len(vs), 300)] { // cut or pad every value to `size`
 					fvs = append(fvs, append(bytes.Clone(v), bytes.Repeat([]byte{0}, size)...)[:size])
@@ -1847,7 +1874,7 @@ func RunC04Delta(ctx *core.Ctx) {
 				cases = append(cases, c04dCase{kind: "confflba", size: size, vals: fvs, raw: raw, conf: parts, pat: pat, seed: r.Int63()})
 			}
 		}
-		nWin := ctx.Scale(300, 3000) * mul
+		nWin := ctx.Scale(300, 1500) * mul
 		for i := 0; i < nWin; i++ {
 			for _, kind := range []string{"win-dlba", "win-dba"} {
 				pat := c04dBytePats[r.Intn(len(c04dBytePats)-3)]
@@ -1893,7 +1920,7 @@ func RunC04Delta(ctx *core.Ctx) {
 				cases = append(cases, c04dCase{kind: kind, size: width, tail: n, raw: raw, pat: "unpack", seed: r.Int63()})
 			}
 		}
-		nMal := ctx.Scale(2500, 20000) * mul
+		nMal := ctx.Scale(2500, 10000) * mul
 		for i := 0; i < nMal; i++ {
 			for _, kind := range []string{"mal32", "mal64", "maldlba", "maldba"} {
 				raw, pat := c04dMalformed(r, kind)
